@@ -21,6 +21,11 @@ last / not numbered 1 (rare; such a bundle breaks RFC 9171 4.1 / 4.3.3 itself, t
 "payload last, numbered 1" on the way out - the model says it is forwarded in the order it came), duplicate block
 numbers (rare; the container raises, nothing is forwarded), own source (rare; ignored).
 
+Clock: the virtual clock ADVANCES between recv_bundle and the dispatch of the deferred _do_fwd (0, 1, 999, 2500 or
+60000 ms) and again before the next bundle of the history; 'now' of the model and of the oracle is the time at which
+the forwarding queue is processed, i.e. when the octets are handed to the CL ("age reflects time since creation"
+as observed on leaving the node, no tolerance under the virtual clock).
+
 Process state: forwarding must not depend on what the process forwarded before (on the original tree the number
 given to an inserted block stuck to scapy's class-level overloaded_fields dict; fixed by ed76b97).  Histories are
 therefore fed to ONE agent, and each case starts from a "fresh process": that key is deleted from every Packet
@@ -69,6 +74,7 @@ NODE_UNSTABLE = 'dtn://me'                      # the text conversion turns it i
 NOW0 = 800000000000
 UNKNOWN_TYPES = [2, 3, 5, 8, 9, 13, 23, 24, 191, 192, 255, 256, 65535, 65536, 2 ** 32, 2 ** 64 - 1]
 IMPL_REASONS = list(range(0, 11)) + list(range(12, 17))
+QUEUE_DELAYS = [0, 1, 999, 2500, 60000]      # ms between reception and the idle callback that forwards
 TX_PATTERNS = ['.*', '^dtn:', '^ipn:', 'dtn://d', 'ipn:5\\.', 'none$', 'x{3}']
 
 
@@ -247,11 +253,14 @@ def gen_case(rng, klass=None):
     node = rng.choice(NODES) if rng.random() < 0.95 else NODE_UNSTABLE
     length = rng.choice([1, 1, 1, 2, 2, 3, 4])
     hist = []
-    now = NOW0 + rng.choice([0, 1, 999, 10 ** 6])
+    recv_now = NOW0 + rng.choice([0, 1, 999, 10 ** 6])
     for idx in range(length):
+        # the virtual clock advances between recv_bundle and the dispatch of the deferred _do_fwd: 'now' is the
+        # time of FORWARDING (what the model's do_fwd takes and what the age must reflect), 'recv_now' the reception
+        now = recv_now + rng.choice(QUEUE_DELAYS)
         (spec, tags) = gen_rx_bundle(rng, node, now, 100 + idx, klass if idx == length - 1 else None)
-        hist.append(dict(now=now, spec=spec, tags=tags))
-        now += rng.choice([1, 7, 1000, 10 ** 5])
+        hist.append(dict(recv_now=recv_now, now=now, spec=spec, tags=tags))
+        recv_now = now + rng.choice([1, 7, 999, 2500, 60000])
     return dict(node=node, tx_routes=gen_routes(rng), hist=hist)
 
 
@@ -285,11 +294,12 @@ def run_impl(case):
     node = case['node']
     drv = B.BpDriver(node_id=node, rx_routes=[('.*', 'forward')],
                      tx_routes=[dict(pattern=item['pattern'], cl_type=item['cl_type'], mtu=item['mtu']) for item in case['tx_routes']],
-                     cl_types=('fake', 'alt'), clock=B.Clock(now_ms=case['hist'][0]['now'], tick=0))
+                     cl_types=('fake', 'alt'), clock=B.Clock(now_ms=case['hist'][0].get('recv_now', case['hist'][0]['now']), tick=0))
     out = []
     for item in case['hist']:
         raw = bg.encode(item['spec'])
-        drv.clock.now_ms = item['now']
+        # reception at recv_now (the CL adaptor callback: BundleContainer(Bundle(data)) then Agent.recv_bundle) ...
+        drv.clock.now_ms = item.get('recv_now', item['now'])
         ent = dict(raw_hex=raw.hex())
         stage = 'ok'
         try:
@@ -302,7 +312,18 @@ def run_impl(case):
                 bp.util.BundleContainer(bundle)
             except Exception as err:
                 stage = 'container:' + err.__class__.__name__
-        obs = drv.recv(raw)
+        marks = (len(drv.transmitted), len(drv.recv_calls))
+        obs = dict(recv_exc=None)
+        if stage == 'ok':
+            try:
+                drv.agent.recv_bundle(bp.util.BundleContainer(bp.encoding.Bundle(raw)))
+            except Exception as err:
+                obs['recv_exc'] = err.__class__.__name__
+        # ... then the main loop gets round to the deferred work (forwarding queue, reports) at 'now'
+        drv.clock.now_ms = item['now']
+        obs['escaped'] = drv.drain()
+        obs['transmitted'] = drv.transmitted[marks[0]:]
+        obs['actions'] = [sorted(ctr.actions.keys()) for ctr in drv.recv_calls[marks[1]:]]
         sent = [tx for tx in obs['transmitted']
                 if not (tx['bundle'].get('ok') and tx['bundle']['primary']['src'] == node_text(node))]
         acts = obs['actions'][0] if obs['actions'] else []
@@ -637,6 +658,7 @@ def evaluate(chk, cases, pending, count=True, label='gen'):
                     chk.count('block_kind', blk.get('kind', 'raw'))
                     chk.count('crc_type', blk['crc_type'])
                 chk.count('history_position', idx)
+                chk.count('queue_delay_ms', item['now'] - item.get('recv_now', item['now']))
                 if model is not None and idx < len(model[cidx][1]):
                     for (name, flag) in zip(flag_names, model[cidx][1][idx]):
                         if flag:
@@ -660,7 +682,7 @@ def evaluate(chk, cases, pending, count=True, label='gen'):
             if count:
                 nontrivial = ent['code'] == 5 and any(blk['type'] in (6, 7, 10) or blk['type'] not in (1,) for blk in item['spec']['blocks'][:-1])
                 chk.case(ident=(ent['raw_hex'], item['now'], case['node'], idx), nontrivial=nontrivial,
-                         sample=dict(node=case['node'], now=item['now'], received_hex=ent['raw_hex'][:400],
+                         sample=dict(node=case['node'], received_at=item.get('recv_now', item['now']), now=item['now'], received_hex=ent['raw_hex'][:400],
                                      transmitted_hex=(ent['sent'][0]['raw_hex'][:400] if ent['sent'] else None),
                                      outcome=ent['code'], position_in_history=idx, tags=item.get('tags')))
     return (disagree, fails)
@@ -691,14 +713,14 @@ def directed_cases():
             (spec, tags) = gen_rx_bundle(rng, node, NOW0, 1)
             spec.update(time=first_time, lifetime=1000, crc_type=1, flags=0, frag=None, dest='dtn://d/x', src='dtn://s/', report_to='dtn:none')
             spec['blocks'] = [_blk(1, 1, b'first', 2, 0, 'payload')]
-            hist.append(dict(now=NOW0, spec=bg.fill_crc(spec), tags=['sticky-first']))
+            hist.append(dict(recv_now=NOW0 - 2500, now=NOW0, spec=bg.fill_crc(spec), tags=['sticky-first']))
             spec2 = dict(spec, seq=2, time=NOW0 - 7)
             spec2['blocks'] = [_blk(192, num, b'\x01\x02', 1, 0, 'unknown') for num in nums] + [_blk(1, 1, b'second', 0, 0, 'payload')]
-            hist.append(dict(now=NOW0 + 10, spec=bg.fill_crc(spec2), tags=['sticky-second']))
+            hist.append(dict(recv_now=NOW0 + 1, now=NOW0 + 10, spec=bg.fill_crc(spec2), tags=['sticky-second']))
             spec3 = dict(spec, seq=3, time=NOW0 - 9)
             spec3['blocks'] = [_blk(6, nums[0], cbor2.dumps([1, '//p/']), 0, 0, 'prev'), _blk(7, 9, cbor2.dumps(4), 0, 0, 'age'),
                                _blk(1, 1, b'third', 1, 0, 'payload')]
-            hist.append(dict(now=NOW0 + 20, spec=bg.fill_crc(spec3), tags=['sticky-third']))
+            hist.append(dict(recv_now=NOW0 + 20, now=NOW0 + 20, spec=bg.fill_crc(spec3), tags=['sticky-third']))
             cases.append(dict(node=node, tx_routes=[dict(pattern='.*', cl_type='fake', mtu=None)], hist=hist))
     return cases
 
@@ -777,7 +799,7 @@ def main():
                      'a fresh process is emulated by deleting block_num from scapy\'s class-level overloaded_fields tables before each case',
                      'TX chain with no BPSec policy and route MTU None or 10^6 (fragmentation: C05); block types 11/12 not generated (C12)',
                      'typed block data outside the model\'s domain (see Model/BpFwd.v header) is not generated',
-                     'each received bundle is processed at its own clock value (the Timestamper then yields sequence number 0)'])
+                     'each bundle is received at recv_now and forwarded at now >= recv_now (virtual clock advanced before the idle callbacks run); forwarding times strictly increase within a history (the Timestamper then yields sequence number 0)'])
 
 
 if __name__ == '__main__':
